@@ -322,7 +322,8 @@ impl MqttState {
             if let Some(topic) = self.topic_alises.get(&alias) {
                 topic.clone_into(&mut publish.topic);
             } else {
-                self.handle_protocol_error()?;
+                // hand the DISCONNECT (protocol error) to the network instead of dropping it
+                return self.handle_protocol_error();
             };
         }
 
